@@ -69,6 +69,7 @@
 
 #ifndef URI_DOXYGEN
 # include <uriparser/Uri.h>
+# include <uriparser/UriIp4.h>
 # include "UriNormalizeBase.h"
 # include "UriCommon.h"
 # include "UriMemory.h"
@@ -655,6 +656,22 @@ static URI_INLINE int URI_FUNC(NormalizeSyntaxEngine)(URI_TYPE(Uri) * uri,
 
 				URI_FUNC(LowercaseInplaceExceptPercentEncoding)(uri->hostText.first,
 						uri->hostText.afterLast);
+
+				/* NOTE: Decoding can turn a registered name into a dotted quad
+				 *       (e.g. "1.2.3.%34" into "1.2.3.4").  Any parse of the
+				 *       resulting text reports an IPv4 host, so do we. */
+				{
+					unsigned char octets[4];
+					if (URI_FUNC(ParseIpFourAddress)(octets, uri->hostText.first,
+							uri->hostText.afterLast) == URI_SUCCESS) {
+						uri->hostData.ip4 = memory->malloc(memory, 1 * sizeof(UriIp4));
+						if (uri->hostData.ip4 == NULL) {
+							URI_FUNC(PreventLeakage)(uri, doneMask, memory);
+							return URI_ERROR_MALLOC;
+						}
+						memcpy(uri->hostData.ip4->data, octets, sizeof(octets));
+					}
+				}
 			}
 		}
 	}
